@@ -126,7 +126,15 @@ func invScenario(cfg hx.GCfg, P, M int, script string, c int) *explore.Scenario 
 // ---- family 2: blocking publish waits for the acks and keeps order -----------------------------------
 
 func blockScenario(cfg hx.GCfg, P, M int, scripts []string, concSub bool, c int) *explore.Scenario {
+	return blockScenarioB(cfg, P, M, scripts, concSub, c, false)
+}
+
+// batch: each publisher hands its M messages to one Publish call
+func blockScenarioB(cfg hx.GCfg, P, M int, scripts []string, concSub bool, c int, batch bool) *explore.Scenario {
 	name := fmt.Sprintf("block/%s/P%dxM%d/", cfg, P, M)
+	if batch {
+		name = fmt.Sprintf("block-batch/%s/P%dxM%d/", cfg, P, M)
+	}
 	for _, s := range scripts {
 		name += s + "-"
 	}
@@ -174,6 +182,23 @@ func blockScenario(cfg hx.GCfg, P, M int, scripts []string, concSub bool, c int)
 				wg.Add(1)
 				go func() {
 					defer wg.Done()
+					if batch {
+						var ms []*message.Message
+						for i := 0; i < M; i++ {
+							ms = append(ms, hx.Msg(fmt.Sprintf("p%dm%d", p, i)))
+						}
+						if err := g.Publish("t", ms...); err != nil {
+							vs.Fail("publish-error", "%v", err)
+						}
+						for s := 0; s < S; s++ {
+							for _, m := range ms {
+								if !acked[s][m.UUID] {
+									vs.Fail("publish-waits-for-ack", "Publish(batch) returned before subscription %d acked %s (cfg %s)", s, m.UUID, cfg)
+								}
+							}
+						}
+						return
+					}
 					for i := 0; i < M; i++ {
 						u := fmt.Sprintf("p%dm%d", p, i)
 						if err := g.Publish("t", hx.Msg(u)); err != nil {
@@ -385,6 +410,23 @@ func init() {
 			continue
 		}
 		addBlock(reg.Quick, 5, cfg, 1, 2, []string{"nack1"}, false, -1, -1)
+		{
+			cfg := cfg
+			for _, scr := range [][]string{{"ack"}, {"nack1"}, {"ack", "ack"}} {
+				scr := scr
+				cq := -1
+				if len(scr) > 1 {
+					cq = 2
+				}
+				sc := blockScenarioB(cfg, 1, 2, scr, false, cq, true)
+				reg.AddW("C05", sc.Name, reg.Quick, 6, func(t reg.Tier) *explore.Scenario {
+					if t == reg.Thorough {
+						return blockScenarioB(cfg, 1, 3, scr, false, 2, true)
+					}
+					return blockScenarioB(cfg, 1, 2, scr, false, cq, true)
+				})
+			}
+		}
 		addBlock(reg.Quick, 15, cfg, 1, 2, []string{"ack", "nack1"}, false, 2, 3)
 		addBlock(reg.Quick, 15, cfg, 1, 1, []string{"ack"}, true, 2, 4)
 		addBlock(reg.Quick, 15, cfg, 2, 1, []string{"ack"}, false, 2, -1)
